@@ -31,6 +31,20 @@ def gen_script(rnd):
     threads = rnd.choice([1, 2, 2, 3, 4, 4, 5, 6, 6, 7, 8])
     lines = ["now 0 | uci", "now 0 | setoption name Threads value %d" % threads, "now 0 | isready"]
     fens = rnd.sample(FENS, len(FENS))
+    if rnd.random() < .12:
+        # helper-tree reshaping: with 6 or more threads the helpers form a tree, and every change of the count among 5..8 replaces
+        # existing helpers by new ones right before the next search starts
+        threads = rnd.choice([5, 6, 7, 8])
+        lines[1] = "now 0 | setoption name Threads value %d" % threads
+        nb, t = 0, threads
+        for s in range(4):
+            lines.append("%s | position fen %s" % ("best %d" % nb, fens[s]))
+            lines.append("now 0 | go depth %d" % rnd.randint(1, 4)); nb += 1
+            t = rnd.choice([x for x in (5, 6, 7, 8) if x != t])
+            lines.append("best %d | setoption name Threads value %d" % (nb, t))
+        lines.append("best %d | isready" % nb)
+        lines.append("steps %d | quit" % rnd.randint(0, 20))
+        return lines, "threads=%d reshape" % threads, 8
     nsearch = rnd.randint(2, 4)
     nbest = 0
     kinds = []
@@ -39,7 +53,7 @@ def gen_script(rnd):
         fen = fens[s]
         wait = "best %d" % nbest if rnd.random() < .6 else "steps %d" % rnd.randint(0, 60)
         lines.append("%s | position fen %s" % (wait, fen))
-        kind = rnd.choice(["finish", "finish", "stop", "ponderhit", "ponderstop", "backtoback", "optthreads", "optduring", "newgame", "quit", "eof"])
+        kind = rnd.choice(["finish", "finish", "stop", "ponderhit", "ponderstop", "backtoback", "optthreads", "optthreads", "optduring", "newgame", "quit", "eof"])
         kinds.append(kind)
         d = rnd.randint(3, 7)
         rel = lambda: "steps %d" % rnd.choice([0, 1, 2, 5, 10, 30, 100, 300, 1000])
@@ -58,7 +72,7 @@ def gen_script(rnd):
             lines.append("now 0 | go depth %d" % d); nbest += 2
         elif kind == "optthreads":
             lines.append("now 0 | go depth %d" % d); nbest += 1
-            lines.append("best %d | setoption name Threads value %d" % (nbest, rnd.choice([1, 2, 3, 4, 5, 6, 7, 8])))     # 5 <-> 6: the helper tree is reshaped
+            lines.append("best %d | setoption name Threads value %d" % (nbest, rnd.choice([1, 2, 3, 4, 5, 6, 6, 7, 7, 8])))     # 5 <-> 6 and above: the helper tree is reshaped, existing helpers are replaced
         elif kind == "optduring":
             lines.append("now 0 | go infinite")
             lines.append("%s | setoption name %s" % (rel(), rnd.choice(["Threads value 2", "Threads value 5", "Hash value 1", "MultiPV value 2", "Clear Hash", "UseNullMove value false"])))
